@@ -577,6 +577,26 @@ func (c *Ctx) txTypes(rel string) []types.Type {
 func sentinelEqEdges(fn *ssa.Function) map[core.Edge]bool {
 	out := map[core.Edge]bool{}
 	errT := types.Universe.Lookup("error").Type()
+	// classification predicates, also when their result was first named (`dup := err != nil && isDupe(err)`)
+	gPred := core.Guard{Name: "error classified by a predicate", Match: func(a core.CondAtom) (bool, bool) {
+		if a.Op != token.ILLEGAL {
+			return false, false
+		}
+		call, ok := a.Val.(*ssa.Call)
+		if !ok {
+			return false, false
+		}
+		for _, arg := range call.Call.Args {
+			if types.Identical(arg.Type(), errT) {
+				return true, true
+			}
+		}
+		return false, false
+	}}
+	pe, _ := core.GuardEdges(fn, gPred)
+	for e := range pe {
+		out[e] = true
+	}
 	for _, b := range fn.Blocks {
 		ifi, ok := b.Instrs[len(b.Instrs)-1].(*ssa.If)
 		if !ok {
